@@ -1126,6 +1126,9 @@ func (h *history) mutate(op string, obj int, v uint, cm []int64) uint {
 	}
 	h.steps = append(h.steps, hstep{Op: op, Obj: obj, V: v, CM: cm})
 	h.last = op
+	if h.c.Res.Distribution == nil {
+		h.c.Res.Distribution = map[string]int{}
+	}
 	h.c.Res.Distribution["history/mutation/"+op+"/"+h.e.name]++
 	return v
 }
@@ -1232,9 +1235,13 @@ func runHistories(c *vh.Ctx, cf *vh.CaseFile) {
 				h := newHistory(c, cf, e, init)
 				langs := pickLangs(r, e)
 				other := pickLangs(r, e)
+				var warm *builtTx
 				for obj := 0; obj < 2; obj++ {
 					bt := build(r, specFor(r, e, langs, snapshot(h.objs[obj]), 0))
 					h.validate(obj, bt.raw, bt.utxos, "history/warm-up/"+e.name)
+					if obj == 0 {
+						warm = bt
+					}
 				}
 				bt := build(r, specFor(r, e, other, snapshot(h.objs[0]), 0))
 				h.validate(0, bt.raw, bt.utxos, "history/other-language-set/"+e.name)
@@ -1254,6 +1261,7 @@ func runHistories(c *vh.Ctx, cf *vh.CaseFile) {
 						langs = append(langs, v)
 						bt := build(r, specFor(r, e, langs, snapshot(h.objs[0]), 0))
 						h.validate(0, bt.raw, bt.utxos, "history/warm-up/"+e.name)
+						warm = bt
 					}
 				}
 				if !containsU(langsAll, v) {
@@ -1261,6 +1269,8 @@ func runHistories(c *vh.Ctx, cf *vh.CaseFile) {
 				}
 				h.mutate(op, 0, v, smallCM(r))
 				cur := snapshot(h.objs[0])
+				// the very same transaction bytes that were accepted before the change
+				h.validate(0, warm.raw, warm.utxos, "history/same-tx-after-"+op+"/"+e.name)
 				// hash computed for the OUTDATED cost models: must be rejected now
 				bt = build(r, specFor(r, e, langs, old, 0))
 				h.validate(0, bt.raw, bt.utxos, "history/old-hash-after-"+op+"/"+e.name)
